@@ -1,1 +1,2 @@
 pub mod c07;
+pub mod hprops;
